@@ -18,7 +18,10 @@ def sels_for(nf, names):
             {"t": "slice", "v": [None, None, 2]}, {"t": "slice", "v": [1, nf, 2]},
             {"t": "list", "v": list(range(nf))}, {"t": "list", "v": [nf - 1]},
             # slice bounds beyond the field count are clamped, not wrapped
-            {"t": "slice", "v": [-nf - 3, None, None]}, {"t": "slice", "v": [-nf - 1, nf + 4, None]}, {"t": "slice", "v": [None, nf + 2, None]}]
+            {"t": "slice", "v": [-nf - 3, None, None]}, {"t": "slice", "v": [-nf - 1, nf + 4, None]}, {"t": "slice", "v": [None, nf + 2, None]},
+            # strides whose last selected field is not the last field of the span
+            {"t": "slice", "v": [None, None, 4]}, {"t": "slice", "v": [None, None, 3]}, {"t": "slice", "v": [1, nf, 3]},
+            {"t": "slice", "v": [0, nf - 1, 4]}, {"t": "slice", "v": [0, 1, 2]}, {"t": "slice", "v": [1, nf - 1, 2]}]
     if nf >= 3:
         out += [{"t": "list", "v": [0, nf - 1]}, {"t": "slice", "v": [1, -1, None]}, {"t": "ndarray", "v": [1, 2]}]
     out = [dict(s, promised=True) for s in out if selectors.must_honour_field(s, nf, names)]
@@ -126,6 +129,31 @@ def run_spec(ctx, rep, spec, model, orders, real_pool=False, only=None):
             want = [key(truth[(lv, b)][..., 0]) for b in bm[1]]
             if [key(a) for a in got_list] != want:
                 rep.fail("on-demand iterator does not yield the selected boxes in the requested order", case)
+    # negative level keys on a reader opened with a level limit count from the last level READ
+    nlev = len(spec["levels"])
+    if only is None and nlev >= 2:
+        for L in range(nlev - 1):
+            with quiet():
+                pl = PlotfileCooker(path, limit_level=L)
+            for k in sorted({-1, -(L + 1)}):
+                lv = L + 1 + k
+                case = {"spec": spec, "limited": L, "levelkey": k}
+                rep.case({"s": spec, "lim": L, "k": k}, nontrivial=True); rep.count("negative-level-key-under-limit")
+                want = sorted(key(truth[(lv, b)][..., 0]) for b in range(len(spec["levels"][lv])))
+                try:
+                    with alarm(60), quiet(), pools.controlled():
+                        got = sorted(key(a) for a in pl[0][k])
+                except Exception as e:
+                    rep.fail(f"level key {k} on a reader limited to level {L} raised {type(e).__name__}: {e}", case); continue
+                if got != want:
+                    rep.fail(f"level key {k} on a reader limited to level {L} does not yield the boxes of level {lv}", case)
+            try:
+                with alarm(60), quiet(), pools.controlled():
+                    bad = list(pl[0][-(L + 2)])
+                rep.fail(f"level key {-(L + 2)} on a reader limited to level {L} (levels 0..{L} read) was answered with {len(bad)} boxes",
+                         {"spec": spec, "limited": L, "levelkey": -(L + 2)})
+            except Exception:
+                pass
     if model and reqs:
         replies = leanio.driver(reqs)
         for case, got_hex, idxs in pend:
@@ -147,7 +175,7 @@ def orders_for(ctx):
 def run(ctx, rep, model=True):
     n = 12 if ctx.quick else 50
     for i in range(n):
-        spec = plotgen.random_spec(ctx.rng, ndims=[3, 2][i % 2], nf=[3, 2, 4, 1][i % 4], data="bits", B=2,
+        spec = plotgen.random_spec(ctx.rng, ndims=[3, 2][i % 2], nf=[3, 2, 4, 1, 7, 5][i % 6], data="bits", B=2,
                                    layout=["scatter", "files", "perm"][i % 3])
         # index space reaching below zero (the domain's first cell has a negative index; its last one stays >= 0, which is
         # all the reader's own grid bookkeeping - not under test here - can cope with)
@@ -164,7 +192,7 @@ def run(ctx, rep, model=True):
 
 def replay(ctx, rep, obj, model=True):
     c = obj["case"]
-    if c.get("iter"):
+    if c.get("iter") or "limited" in c:
         run_spec(ctx, rep, c["spec"], model, orders_for(ctx))
     else:
         run_spec(ctx, rep, c["spec"], model, orders_for(ctx), real_pool=c.get("real_pool", False), only=c)
